@@ -210,9 +210,14 @@ def ldsem_fidelity(L, info, driver, script):
         for (pp, m) in L.order:
             if pp != p:
                 continue
-            for sec, size, align, nobits in L.objects[(pp, m)]:
-                if sec == "COMMON":
-                    continue
+            # what the assembler really emits: .text, .data, .bss come first in every object (empty, alignment 1, when
+            # the source does not mention them), then the other sections in source order
+            given = [(sec, size, align) for sec, size, align, nobits in L.objects[(pp, m)] if sec != "COMMON"]
+            std = []
+            for name in (".text", ".data", ".bss"):
+                hit = [g for g in given if g[0] == name]
+                std.append(hit[0] if hit else (name, 0, 1))
+            for sec, size, align in std + [g for g in given if g[0] not in (".text", ".data", ".bss")]:
                 objs.append([pp, m, sec, size, align])
     used = {s["path"] for s in parse_script(script) if s["kind"] == "input"}
     objs = [o for o in objs if o[0] in used]
@@ -244,6 +249,8 @@ def ldsem_fidelity(L, info, driver, script):
         if real["size"] != o["size"] or (real["addr"] != o["addr"] % (1 << 32) and not (o["size"] == 0 and o["name"] in info.get("allowlist", []))):
             bad.append("section %s: GNU ld addr 0x%X size 0x%X, Lean semantics addr 0x%X size 0x%X" % (o["name"], real["addr"], real["size"], o["addr"], o["size"]))
     for p, m, sec, addr, out in ans["placed"]:
+        if not any(x[0] == sec for x in L.objects.get((p, m), [])):
+            continue    # an implicit empty .text/.data/.bss of the object: it has no marker
         real = marker_addr(L, p, m, sec)
         if real is None:
             size = [x[1] for x in L.objects[(p, m)] if x[0] == sec]
